@@ -17,33 +17,44 @@
 (*   AtomicInstall = FALSE     availability is checked and the table       *)
 (*                             written in two separate critical sections   *)
 (*   DisposeOnConflict = FALSE the code before repair F2                   *)
+(*   CheckOnRollout = FALSE    rollout deploys skip the availability check *)
+(*                                                                         *)
+(* A service object is identified by the deploy that created it (its       *)
+(* active load balancer carries the same id).  A rollout deploy works on   *)
+(* the installed object itself: it puts a new load balancer into the       *)
+(* object's rollout slot and installs the SAME object again - also when    *)
+(* the service was removed or replaced while it waited.                    *)
 (***************************************************************************)
 EXTENDS Integers, FiniteSets, TLC
 
 CONSTANTS Cmds,      \* command ids
-          Kind,      \* Kind[c] \in {"deploy", "remove"}
+          Kind,      \* Kind[c] \in {"deploy", "rdeploy", "remove"}   (rdeploy = rollout deploy)
           Name,      \* Name[c]: service name
           Bind,      \* Bind[c]: set of host/path pairs a deploy claims
           MayFail,   \* may new targets fail to become healthy?
-          AtomicInstall, DisposeOnConflict
+          AtomicInstall, DisposeOnConflict,
+          CheckOnRollout   \* variant: FALSE = a rollout deploy installs without the availability check
 
 Names == {Name[c] : c \in Cmds}
 None == "-"          \* no load balancer / service absent
 
 VARIABLES tbl,       \* tbl[n]: load balancer (= id of the deploy that created it) of the installed service n, or None
           own,       \* own[n]: host/path pairs of the installed service n
-          pc,        \* pc[c]: new, wait, healthy, checked, conflict, installed, ret, done
+          pc,        \* pc[c]: new, wait, healthy, updated, checked, conflict, installed, ret, done
           base,      \* base[c]: load balancer the copy made by c shares, i.e. what c will replace
           probing,   \* load balancers whose targets are being probed
           res,       \* res[c]
-          race       \* race[c]: another command for the same service was in progress while c was (known finding)
-vars == <<tbl, own, pc, base, probing, res, race>>
+          race,      \* race[c]: another command for the same service was in progress while c was (known finding)
+          obj,       \* obj[c]: the service object command c works on
+          rb         \* rb[d]: load balancer in the rollout slot of service object d, or None
+vars == <<tbl, own, pc, base, probing, res, race, obj, rb>>
 
 InProg(c) == pc[c] \notin {"new", "done"}
 
 Init == /\ tbl = [n \in Names |-> None] /\ own = [n \in Names |-> {}]
         /\ pc = [c \in Cmds |-> "new"] /\ base = [c \in Cmds |-> None]
         /\ probing = {} /\ res = [c \in Cmds |-> ""] /\ race = [c \in Cmds |-> FALSE]
+        /\ obj = [c \in Cmds |-> None] /\ rb = [c \in Cmds |-> None]
 
 Racing(c) == {d \in Cmds \ {c} : InProg(d) /\ Name[d] = Name[c]}
 MarkRace(c) == [d \in Cmds |-> race[d] \/ (d = c /\ Racing(c) # {}) \/ (d \in Racing(c))]
@@ -51,81 +62,107 @@ MarkRace(c) == [d \in Cmds |-> race[d] \/ (d = c /\ Racing(c) # {}) \/ (d \in Ra
 Call(c) ==                                      \* findOrCreateService + NewLoadBalancer (probes start); hook dep_started
   /\ pc[c] = "new" /\ Kind[c] = "deploy"
   /\ base' = [base EXCEPT ![c] = tbl[Name[c]]]
+  /\ obj' = [obj EXCEPT ![c] = c]
+  /\ rb' = [rb EXCEPT ![c] = IF tbl[Name[c]] = None THEN None ELSE rb[tbl[Name[c]]]]     \* the copy shares the rollout slot
   /\ probing' = probing \cup {c}
   /\ pc' = [pc EXCEPT ![c] = "wait"]
   /\ race' = MarkRace(c)
   /\ UNCHANGED <<tbl, own, res>>
 
+RdCall(c) ==                                    \* SetRolloutTargets: serviceForName, NewLoadBalancer
+  /\ pc[c] = "new" /\ Kind[c] = "rdeploy"
+  /\ IF tbl[Name[c]] = None
+     THEN /\ res' = [res EXCEPT ![c] = "not_found"] /\ pc' = [pc EXCEPT ![c] = "ret"]
+          /\ UNCHANGED <<obj, probing>>
+     ELSE /\ obj' = [obj EXCEPT ![c] = tbl[Name[c]]]
+          /\ probing' = probing \cup {c}
+          /\ pc' = [pc EXCEPT ![c] = "wait"]
+          /\ UNCHANGED res
+  /\ race' = MarkRace(c)
+  /\ UNCHANGED <<tbl, own, base, rb>>
+
 WaitOk(c) == /\ pc[c] = "wait"                  \* hook dep_healthy
              /\ pc' = [pc EXCEPT ![c] = "healthy"]
-             /\ UNCHANGED <<tbl, own, base, probing, res, race>>
+             /\ UNCHANGED <<tbl, own, base, probing, res, race, obj, rb>>
 
 WaitFail(c) == /\ pc[c] = "wait" /\ MayFail     \* deploy timeout; lb.Dispose
                /\ probing' = probing \ {c}
                /\ res' = [res EXCEPT ![c] = "unhealthy"]
                /\ pc' = [pc EXCEPT ![c] = "ret"]
-               /\ UNCHANGED <<tbl, own, base, race>>
+               /\ UNCHANGED <<tbl, own, base, race, obj, rb>>
 
-Conflict(c) == \E n \in Names \ {Name[c]} : tbl[n] # None /\ own[n] \cap Bind[c] # {}
+UpdateSlot(c) ==                                \* UpdateLoadBalancer under the service's lock; hook dep_pre_install
+  /\ pc[c] = "healthy"
+  /\ IF Kind[c] = "rdeploy"
+     THEN /\ base' = [base EXCEPT ![c] = rb[obj[c]]]          \* the rollout load balancer it replaces
+          /\ rb' = [rb EXCEPT ![obj[c]] = c]
+     ELSE UNCHANGED <<base, rb>>                              \* a deploy replaces the active one (base, set at the copy)
+  /\ pc' = [pc EXCEPT ![c] = "updated"]
+  /\ UNCHANGED <<tbl, own, probing, res, race, obj>>
+
+BindOf(c) == Bind[obj[c]]                       \* a rollout deploy re-installs the object with the bindings it has
+Conflict(c) == \E n \in Names \ {Name[c]} : tbl[n] # None /\ own[n] \cap BindOf(c) # {}
+Checks(c) == Kind[c] = "deploy" \/ CheckOnRollout
 
 Install(c) ==                                   \* installService under the router's write lock
-  /\ pc[c] = "healthy" /\ AtomicInstall
-  /\ IF Conflict(c)
+  /\ pc[c] = "updated" /\ AtomicInstall
+  /\ IF Checks(c) /\ Conflict(c)
      THEN /\ res' = [res EXCEPT ![c] = "host_in_use"]
           /\ pc' = [pc EXCEPT ![c] = "conflict"]
           /\ UNCHANGED <<tbl, own>>
-     ELSE /\ tbl' = [tbl EXCEPT ![Name[c]] = c]
-          /\ own' = [own EXCEPT ![Name[c]] = Bind[c]]
+     ELSE /\ tbl' = [tbl EXCEPT ![Name[c]] = obj[c]]
+          /\ own' = [own EXCEPT ![Name[c]] = BindOf(c)]
           /\ pc' = [pc EXCEPT ![c] = "installed"]
           /\ UNCHANGED res
-  /\ UNCHANGED <<base, probing, race>>
+  /\ UNCHANGED <<base, probing, race, obj, rb>>
 
 Check(c) ==                                     \* variant: availability checked in a critical section of its own
-  /\ pc[c] = "healthy" /\ ~AtomicInstall
-  /\ IF Conflict(c)
+  /\ pc[c] = "updated" /\ ~AtomicInstall
+  /\ IF Checks(c) /\ Conflict(c)
      THEN res' = [res EXCEPT ![c] = "host_in_use"] /\ pc' = [pc EXCEPT ![c] = "conflict"]
      ELSE pc' = [pc EXCEPT ![c] = "checked"] /\ UNCHANGED res
-  /\ UNCHANGED <<tbl, own, base, probing, race>>
+  /\ UNCHANGED <<tbl, own, base, probing, race, obj, rb>>
 
 Set(c) == /\ pc[c] = "checked"
-          /\ tbl' = [tbl EXCEPT ![Name[c]] = c]
-          /\ own' = [own EXCEPT ![Name[c]] = Bind[c]]
+          /\ tbl' = [tbl EXCEPT ![Name[c]] = obj[c]]
+          /\ own' = [own EXCEPT ![Name[c]] = BindOf(c)]
           /\ pc' = [pc EXCEPT ![c] = "installed"]
-          /\ UNCHANGED <<base, probing, res, race>>
+          /\ UNCHANGED <<base, probing, res, race, obj, rb>>
 
 ConflictDispose(c) ==                           \* the refused deploy stops probing its new targets
   /\ pc[c] = "conflict"
   /\ probing' = IF DisposeOnConflict THEN probing \ {c} ELSE probing
   /\ pc' = [pc EXCEPT ![c] = "ret"]
-  /\ UNCHANGED <<tbl, own, base, res, race>>
+  /\ UNCHANGED <<tbl, own, base, res, race, obj, rb>>
 
 DrainDispose(c) ==                              \* replaced.DrainAll; replaced.Dispose
   /\ pc[c] = "installed"
   /\ probing' = probing \ {base[c]}
   /\ res' = [res EXCEPT ![c] = "ok"]
   /\ pc' = [pc EXCEPT ![c] = "ret"]
-  /\ UNCHANGED <<tbl, own, base, race>>
+  /\ UNCHANGED <<tbl, own, base, race, obj, rb>>
 
 Remove(c) ==                                    \* RemoveService: under the router's write lock the service is disposed
-  /\ pc[c] = "new" /\ Kind[c] = "remove"         \* (probe loops closed, no drain) and deleted from the table
+  /\ pc[c] = "new" /\ Kind[c] = "remove"         \* (probe loops of both slots closed, no drain) and deleted from the table
   /\ IF tbl[Name[c]] = None
      THEN /\ res' = [res EXCEPT ![c] = "not_found"]
           /\ UNCHANGED <<tbl, own, base, probing>>
      ELSE /\ base' = [base EXCEPT ![c] = tbl[Name[c]]]
-          /\ probing' = probing \ {tbl[Name[c]]}
+          /\ probing' = probing \ {tbl[Name[c]], rb[tbl[Name[c]]]}
           /\ tbl' = [tbl EXCEPT ![Name[c]] = None]
           /\ own' = [own EXCEPT ![Name[c]] = {}]
           /\ res' = [res EXCEPT ![c] = "ok"]
   /\ pc' = [pc EXCEPT ![c] = "ret"]
   /\ race' = MarkRace(c)
+  /\ UNCHANGED <<obj, rb>>
 
 Return(c) == /\ pc[c] = "ret"
              /\ pc' = [pc EXCEPT ![c] = "done"]
-             /\ UNCHANGED <<tbl, own, base, probing, res, race>>
+             /\ UNCHANGED <<tbl, own, base, probing, res, race, obj, rb>>
 
 Finished == (\A c \in Cmds : pc[c] = "done") /\ UNCHANGED vars
 
-Next == \/ \E c \in Cmds : Call(c) \/ WaitOk(c) \/ WaitFail(c) \/ Install(c) \/ Check(c) \/ Set(c) \/ ConflictDispose(c)
+Next == \/ \E c \in Cmds : Call(c) \/ RdCall(c) \/ WaitOk(c) \/ WaitFail(c) \/ UpdateSlot(c) \/ Install(c) \/ Check(c) \/ Set(c) \/ ConflictDispose(c)
                            \/ DrainDispose(c) \/ Remove(c) \/ Return(c)
         \/ Finished
 Spec == Init /\ [][Next]_vars
@@ -137,7 +174,7 @@ O_FailedLeavesNothing == \A c \in Cmds : (pc[c] = "done" /\ res[c] \notin {"ok",
 \* C17: once everything has returned only installed load balancers are probed
 \* (commands that raced another command for the same service are the known finding KF-same-service-race)
 O_NoLeak == (\A c \in Cmds : ~InProg(c)) =>
-              \A l \in probing : (\E n \in Names : tbl[n] = l) \/ race[l]
+              \A l \in probing : (\E n \in Names : tbl[n] # None /\ (tbl[n] = l \/ rb[tbl[n]] = l)) \/ race[l]
 \* C05: a refusal is justified
 A_RefusalJustified == [][\A c \in Cmds : (res[c] = "" /\ res'[c] = "host_in_use") => Conflict(c)]_vars
 \* C06: a step that makes a command fail changes no table entry
@@ -146,5 +183,5 @@ A_FailChangesNothing == [][(\E c \in Cmds : res[c] = "" /\ res'[c] \notin {"", "
 \* unless that service was removed or replaced meanwhile)
 O_SomeoneWins == (\A c \in Cmds : pc[c] = "done") =>
                    \A c \in Cmds : res[c] = "host_in_use" =>
-                     \E d \in Cmds \ {c} : Kind[d] = "deploy" /\ Name[d] # Name[c] /\ Bind[d] \cap Bind[c] # {} /\ res[d] = "ok"
+                     \E d \in Cmds \ {c} : Kind[d] = "deploy" /\ Name[d] # Name[c] /\ Bind[d] \cap BindOf(c) # {} /\ res[d] = "ok"
 =============================================================================
